@@ -173,6 +173,12 @@ def simp(t):
             return c
         if _is_bool(a, False) and _is_bool(b, True):
             return simp(("not", c))
+        if _is_bool(a, True) and b[0] == "cmp" and b[1] == "==" and c[0] == "and":
+            # (True if x is None and y is None else x == y) is x == y: None equals None
+            def _is_none(x):
+                return ("cmp", "is", x, C(None)) in c[1] or ("cmp", "is", C(None), x) in c[1] or ("cmp", "==", x, C(None)) in c[1] or ("cmp", "==", C(None), x) in c[1]
+            if len(c[1]) == 2 and _is_none(b[2]) and _is_none(b[3]):
+                return b
         if b[0] == "ite" and b[2] == a and c[0] == "and" and (b[1] in c[1] or (b[1][0] == "and" and all(k in c[1] for k in b[1][1]))):
             return b                    # (v if A and B else (v if A else z)) is (v if A else z)
         a2, b2 = assume(a, c, True), assume(b, c, False)
@@ -524,6 +530,47 @@ def negate(x):
     return ("neg", x)
 
 
+def _hoist_ite(c, a, b):
+    """ite(c, a, b) with a common leading test kept outside: ite(c, ite(k, x, A), ite(k, x, B)) is ite(k, x, ite(c, A, B))."""
+    if a[0] == "ite" and b[0] == "ite" and len(a) == 4 and len(b) == 4 and a[1] == b[1] and a[2] == b[2] and a != b:
+        return simp(("ite", a[1], a[2], _hoist_ite(c, a[3], b[3])))
+    if a[0] == "ite" and b[0] == "ite" and len(a) == 4 and len(b) == 4 and a[1] == b[1] and a[3] == b[3] and a != b:
+        return simp(("ite", a[1], _hoist_ite(c, a[2], b[2]), a[3]))          # the same with the test stored in its positive form
+    return simp(("ite", c, a, b))
+
+
+def _fill_ret(t, returned, v, depth=0):
+    """The value returned so far (t, valid where `returned` holds) extended by `return v` on the paths that have not returned yet:
+    the fall-through leaf of the chain is replaced, the tests stay in program order."""
+    if returned == FALSE:
+        return v
+    if returned == TRUE:
+        return t
+    if t[0] == "ite" and len(t) == 4 and depth < 40:
+        k = t[1]
+        r1, r0 = assume(returned, k, True), assume(returned, k, False)
+        if r1 == TRUE:
+            return simp(("ite", k, t[2], _fill_ret(t[3], r0, v, depth + 1)))
+        if r0 == TRUE:
+            return simp(("ite", k, _fill_ret(t[2], r1, v, depth + 1), t[3]))
+        if r1 != returned or r0 != returned:
+            return simp(("ite", k, _fill_ret(t[2], r1, v, depth + 1), _fill_ret(t[3], r0, v, depth + 1)))
+    return simp(("ite", returned, t, v))
+
+
+def _flag_minus(x, r0):
+    """x (a 'has returned' flag after a branch) on the paths where r0 (the flag before the branch) is false."""
+    if x == r0:
+        return FALSE
+    if x == TRUE or x == FALSE:
+        return x
+    xs = x[1] if x[0] == "or" else (x,)
+    rs = r0[1] if r0[0] == "or" else (r0,)
+    if len(xs) > len(rs) and tuple(xs[:len(rs)]) == tuple(rs):
+        return simp(("or", tuple(xs[len(rs):])))
+    return assume(x, r0, False)
+
+
 def mk_add(*xs):
     return simp(("add", tuple(xs)))
 
@@ -723,17 +770,17 @@ class SymX:
                         st_then.env[b] = v
             s1 = self.block(s.body, st_then, f, depth)
             s2 = self.block(s.orelse, st.copy(), f, depth)
-            return self.merge(c, s1, s2)
+            return self.merge(c, s1, s2, base=st)
         if isinstance(s, ast.Return):
             v = ev(s.value) if s.value is not None else C(None)
-            st.env["$ret"] = mk_ite(st.env["$returned"], st.env["$ret"], v)
+            st.env["$ret"] = _fill_ret(st.env["$ret"], st.env["$returned"], v)
             st.env["$returned"] = TRUE
             st.dead = True
             return st
         if isinstance(s, ast.Raise):
             exc = ev(s.exc) if s.exc is not None else ("reraise",)
             st.effects.append((self._alive(st), "raise", exc))
-            st.env["$ret"] = mk_ite(st.env["$returned"], st.env["$ret"], ("raise", exc))
+            st.env["$ret"] = _fill_ret(st.env["$ret"], st.env["$returned"], ("raise", exc))
             st.env["$returned"] = TRUE
             st.dead = True
             return st
@@ -821,7 +868,7 @@ class SymX:
                 conds.append(mk_not(st.env[flag]))
         return mk_and(*conds) if conds else TRUE
 
-    def merge(self, c, s1, s2):
+    def merge(self, c, s1, s2, base=None):
         if s1.dead and s2.dead:
             out = State()
             out.dead = True
@@ -836,6 +883,14 @@ class SymX:
                 out.env[n] = b
             elif not flag and s2.dead and not s1.dead:
                 out.env[n] = a
+            elif n == "$ret":
+                # the returned value as a chain in PROGRAM order (`if c1: return m1` / `if c2: return m2` is m1 if c1 else (m2 if c2 ..)):
+                # logically the same as nesting the later test outside, but a reader that evaluates the term (the guard
+                # evaluator) must meet the tests in the order the program does - a later test may only be safe after an earlier one
+                out.env[n] = _hoist_ite(c, a, b)
+            elif n == "$returned" and base is not None and base.env.get(n, FALSE) not in (FALSE, TRUE) and a != UNBOUND and b != UNBOUND:
+                r0 = base.env[n]
+                out.env[n] = mk_or(r0, mk_ite(c, _flag_minus(a, r0), _flag_minus(b, r0)))
             else:
                 out.env[n] = mk_ite(c, a, b)
         for k in set(s1.heap) | set(s2.heap):
